@@ -62,6 +62,13 @@ class Tr:
         key = ast.unparse(n)
         if key in self.subst:
             return self.subst[key]
+        if isinstance(n, ast.Constant) and isinstance(n.value, float):
+            # a decimal literal is read as the rational it spells (0.01 = 1/100); the double nearest to it differs by < 1e-17 relative
+            from fractions import Fraction
+            fr = Fraction(repr(n.value))      # repr is the shortest decimal that round-trips: the literal as written
+            if fr < 0:
+                fail(n, 'negative literal')
+            return f'(ndiv O (nofZ O {fr.numerator}) (nofZ O {fr.denominator}))', 'F'
         if isinstance(n, ast.Constant):
             if isinstance(n.value, bool) or not isinstance(n.value, int):
                 fail(n, 'only integer literals are supported')
@@ -229,6 +236,16 @@ class Tr:
             a, ta = self.expr(args[0], env)
             if ta == 'mat':
                 return f'(np_rowsum O {a})', 'col'
+        if name in ('np.nanmean', 'np.nanstd') and len(args) == 1 and set(kws) == {'axis', 'keepdims'} \
+                and const(kws['axis'], 1) and const(kws['keepdims'], True):
+            # on the NaN-free stacks the slice is declared for, nanmean / nanstd are mean / (population) standard deviation
+            a, ta = self.expr(args[0], env)
+            if ta == 'mat':
+                return f"(map ({'mean' if name == 'np.nanmean' else 'py_std'} O) {a})", 'col'
+        if name == 'np.nanmin' and len(args) == 1 and not kws:
+            a, ta = self.expr(args[0], env)
+            if ta in ('row', 'vecF'):
+                return f'(py_min O {a})', 'F'
         if name == 'np.mean' and len(args) == 2 and set(kws) == {'keepdims'} and const(args[1], 1) \
                 and const(kws['keepdims'], True):
             a, ta = self.expr(args[0], env)
@@ -730,10 +747,19 @@ def translate_slice(spec, tree):
     elif 'enter_if' in spec:
         # the region is what precedes the top-level `if <test>` plus its body (the path on which the test holds)
         want = norm(spec['enter_if'])
-        cands = [s for s in fn.body if isinstance(s, ast.If) and ast.unparse(s.test) == want]
+        cands = []
+        for top in fn.body:
+            node = top
+            while isinstance(node, ast.If):          # the if / elif chain
+                if ast.unparse(node.test) == want:
+                    cands.append((top, node))
+                node = node.orelse[0] if len(node.orelse) == 1 else None
         if len(cands) != 1:
-            raise Unsupported(f"{spec['func']}: expected exactly one top-level `if {want}`, found {len(cands)}")
-        seq = list(fn.body[:fn.body.index(cands[0])]) + list(cands[0].body)
+            raise Unsupported(f"{spec['func']}: expected exactly one top-level `if/elif {want}`, found {len(cands)}")
+        top, node = cands[0]
+        seq = list(fn.body[:fn.body.index(top)]) + list(node.body)
+        if not isinstance(node.body[-1], (ast.Return, ast.Raise)):
+            seq += list(fn.body[fn.body.index(top) + 1:])      # the branch falls through to what follows the chain
     else:
         seq = list(fn.body)
     full_seq = list(seq)
